@@ -11,6 +11,7 @@ from vlib.harness import V, derive_seed, run_shards
 from vlib.lib import call, mod
 
 PROPERTY = 'C11'
+AMBIENT_PASS = True        # the same search once more under unusual ambient settings (vlib.run.AMBIENT_SETTINGS)
 RULE = ('per system (Tyrving, QuadKids, Sportshall, Bulgarian U16) every (table, event, gender, age) x centi-marks '
         'from well below to well above the tabulated range (all thresholds/breakpoints +-5 centi, the whole range at a '
         'tier-dependent stride; complete for QuadKids, Sportshall and Bulgarian in both tiers), each mark in every '
@@ -18,6 +19,7 @@ RULE = ('per system (Tyrving, QuadKids, Sportshall, Bulgarian U16) every (table,
         'table / linear formula in Fraction arithmetic; plus table ordering, redundancy and reachability clauses. '
         'non-trivial = a mark within 0.02 of a threshold/breakpoint, beyond either end of the table, or whose 100*float '
         'is not integer-valued; distinct by (system, table, centi-mark)')
+RULE = RULE + '; Sportshall events also in lower / Title case and with verbose=True; Tyrving h:mm:ss carriers from one hour up; Bulgarian one-decimal and m:ss carriers'
 ASSUMPTIONS = ['tables are read from the library\'s data structures; a pinned digest of each table (checks/c11_pins.json) '
                'stands for "the published table" of the reference tree',
                'Sportshall increments the sheet gives in units the loader does not parse ("1 no.", "1m") have no defined '
